@@ -29,17 +29,28 @@ if patch:
     exec(compile(open(patch).read(), patch, "exec"))
 
 res = []
+cfg = {{"functions": 0, "functions_with_handlers": 0, "blocks": 0, "blocks_with_handler": 0, "missing": []}}
 
 def obs(stage, fn, mod):
     r = c06_model.check_function(fn, stage)
     res.append({{"fn": fn.name, "cls": fn.class_name, "stage": stage, "states": r["states"],
                 "transitions": r["transitions"], "capped": r["capped"], "violations": r["violations"],
-                "ends": r["ends"]}})
+                "ends": r["ends"], "steal_kinds": r["steal_kinds"], "multi_steal_ops": r["multi_steal_ops"]}})
 
-with c06_ir.observed_pipeline(obs):
+def cfg_obs(fn, missing, nblocks, nhandled):
+    cfg["functions"] += 1
+    cfg["functions_with_handlers"] += bool(nhandled)
+    cfg["blocks"] += nblocks
+    cfg["blocks_with_handler"] += nhandled
+    for m in missing:
+        cfg["missing"].append(dict(m, fn=fn.name, cls=fn.class_name))
+
+with c06_ir.observed_pipeline(obs, cfg_obs):
     ext = mypycify(['{mod}.py'], opt_level='{opt}', debug_level='0', strip_asserts=False)
 with open('static.json', 'w') as f:
     json.dump(res, f)
+with open('cfg.json', 'w') as f:
+    json.dump(cfg, f)
 setup(name='c06_build_{mod}', ext_modules=ext)
 """
 
@@ -76,6 +87,11 @@ def build(job: dict) -> dict:
     if os.path.exists(sp):
         with open(sp) as f:
             static = json.load(f)
+    cfg = {}
+    cp = os.path.join(d, "cfg.json")
+    if os.path.exists(cp):
+        with open(cp) as f:
+            cfg = json.load(f)
     lib_rt = ""
     for line in out.splitlines():
         if "lib-rt" in line and " -I" in line:
@@ -84,4 +100,4 @@ def build(job: dict) -> dict:
                     lib_rt = tok[2:]
             break
     return {"ok": rc == 0 and len(sos) == 1, "rc": rc, "seconds": round(secs, 2), "log": out[-6000:], "dir": d,
-            "mod": mod, "static": static, "lib_rt": lib_rt}
+            "mod": mod, "static": static, "cfg": cfg, "lib_rt": lib_rt}
